@@ -125,7 +125,7 @@ def run(ctx):
     ix = ctx.ix
     w = ctx.world
     em = EM(ctx)
-    ctx.rule("R02.1", "sign and operand of the engine's size change agree with the vAMM's net-position change on every swap edge and assignment", 8)
+    ctx.rule("R02.1", "sign and operand of the engine's size change agree with the vAMM's net-position change on every swap edge and assignment", 9)
     ctx.rule("R02.2", "whole-position swaps use size.value in the position's direction and remove / zero the position; swap replies always store or remove", 9)
     ctx.rule("R02.3", "event attribute keys and type values: engine parser vs vAMM emitters", 3)
 
